@@ -121,7 +121,10 @@ func runDumpPhase(rng *rand.Rand, round int) {
 	prng := rand.New(rand.NewSource(phaseSeed))
 	A := newEnv(0)
 	defer A.close()
-	dumpShapes := []string{"answer", "answer-opt", "cname-chain", "big", "nodata", "answer-2opt", "nxdomain"}
+	// incl. record-less / OPT-only NXDOMAIN and minimal NOERROR shapes of the shape space (30 s and longer lifetimes only:
+	// the restamped load makes entries two seconds older)
+	dumpShapes := []string{"answer", "answer-opt", "cname-chain", "big", "nodata", "answer-2opt", "nxdomain",
+		"rc3:000:o0", "rc0:100:o0", "rc3:000:o1", "rc0:010:o1", "rc3:200:o0", "rc0:001:o2"}
 	M := len(mutations)
 	cases := map[string]*dumpCase{}
 	var order []*dumpCase
